@@ -131,7 +131,13 @@ def _elem_count(ex, st, p, nbytes, w):
     if sz == 1:
         return nbytes, sz
     ex.oblige(st, "ALIGN", nbytes % sz == 0, w)
-    return z3.simplify(nbytes / sz), sz
+    q = z3.simplify(nbytes / sz)
+    if z3.is_int_value(q) or z3.is_const(q):
+        return q, sz
+    # name the element count, so that quantified copy facts mention a constant and not the byte arithmetic
+    cnt = ex.fresh("cnt", z3.IntSort())
+    st.assume(cnt * sz == nbytes)
+    return cnt, sz
 
 
 def _range_ok(ex, st, p, cnt, w, what):
